@@ -123,7 +123,11 @@ def run(c):
         return {"sim_npc": list(guarded(lambda: NPC.sim_npc([1, 2, 3], t, reps=2)))[:2],
                 "wy": list(guarded(lambda: NPC.westfall_young({"group": [0, 1]}, t, reps=2)))[:2],
                 "randomizer": list(guarded(lambda: Experiment(group=[0, 1], response=[[1], [2]], randomizer=NPC.randomize_group)))[:2],
-                "randomizer2": list(guarded(lambda: Experiment(group=[0, 1], response=[[1], [2]], randomizer="strata")))[:2]}
+                "randomizer2": list(guarded(lambda: Experiment(group=[0, 1], response=[[1], [2]], randomizer="strata")))[:2],
+                # wrong-type objects of every truth value (only None means "use the default")
+                **{f"randomizer_{k}": list(guarded(lambda v=v: Experiment(group=[0, 1], response=[[1], [2]], randomizer=v)))[:2]
+                   for k, v in enumerate([0, 0.0, False, "", [], (), {}, 1, True, b"", range(0), Experiment])},
+                **{f"data_{k}": list(guarded(lambda v=v: NPC.sim_npc(v, t, reps=2)))[:2] for k, v in enumerate([None, 0, "", [], {"group": [0, 1]}, np.zeros((2, 2))])}}
     # repro: seeded randomization from the same assignment
     outs = []
     for rep in range(2):
@@ -269,26 +273,34 @@ def oracle(c, o):
     if f == "types":
         for k, v in o.items():
             if v[0] != "exc" or v[1] != "ValueError":
-                return {"why": f"wrong-type argument accepted ({k}): {v}", "cls": f"experiment:type-check:{k}"}
+                _v = emit({"why": f"wrong-type argument accepted ({k}): {v}", "cls": f"experiment:type-check:{k}"})
+                if _v: return _v
         return None
     if f == "repro":
         a, b = o["outs"]
         if a != b:
-            return {"why": f"seeded randomize / sim_npc / westfall_young from the same assignment differ between two runs: {a} vs {b}", "cls": "experiment:irreproducible"}
+            _v = emit({"why": f"seeded randomize / sim_npc / westfall_young from the same assignment differ between two runs: {a} vs {b}", "cls": "experiment:irreproducible"})
+            if _v: return _v
         if a[6] or b[6]:
-            return {"why": f"seeded calls advanced numpy's global random state: {a[6] or b[6]}", "cls": "experiment:global-rng"}
+            _v = emit({"why": f"seeded calls advanced numpy's global random state: {a[6] or b[6]}", "cls": "experiment:global-rng"})
+            if _v: return _v
         for ent in o.get("same", []):
             what, r1, r2, r3, r4 = ent[:5]
             if len(ent) > 5 and any(x != r1 for x in ent[5]):
-                return {"why": f"{what}(seed={c['seed'] + 7}): repeated seeded calls on the same, untouched Experiment give {r1[1]}, then {[x[1] for x in ent[5]]}", "cls": "experiment:irreproducible"}
+                _v = emit({"why": f"{what}(seed={c['seed'] + 7}): repeated seeded calls on the same, untouched Experiment give {r1[1]}, then {[x[1] for x in ent[5]]}", "cls": "experiment:irreproducible"})
+                if _v: return _v
             if r1[0] != "ok":
-                return {"why": f"{what}(in_place=True, seed=...) raised {r1}", "cls": "experiment:raises"}
+                _v = emit({"why": f"{what}(in_place=True, seed=...) raised {r1}", "cls": "experiment:raises"})
+                if _v: return _v
             if not (r1 == r2 == r3):
-                return {"why": f"{what}(seed={c['seed'] + 7}) repeated on the same Experiment from the same assignment gives {r1[1]}, {r2[1]}, then (after an unseeded randomize) {r3[1]}", "cls": "experiment:irreproducible"}
+                _v = emit({"why": f"{what}(seed={c['seed'] + 7}) repeated on the same Experiment from the same assignment gives {r1[1]}, {r2[1]}, then (after an unseeded randomize) {r3[1]}", "cls": "experiment:irreproducible"})
+                if _v: return _v
             if what.endswith("_copy") and r1[0] == "ok" and r1[1][-1] != [0, 1, 0, 1, 1, 0]:
-                return {"why": f"{what}(in_place=False) changed the caller's group assignment to {r1[1][-1]}", "cls": "experiment:in-place-false-mutates"}
+                _v = emit({"why": f"{what}(in_place=False) changed the caller's group assignment to {r1[1][-1]}", "cls": "experiment:in-place-false-mutates"})
+                if _v: return _v
             if r1 != r4:
-                return {"why": f"{what}: int seed {c['seed'] + 7} gives {r1[1]} but a fresh SHA256 generator with that seed {r4[1]}", "cls": "experiment:int-vs-sha256"}
+                _v = emit({"why": f"{what}: int seed {c['seed'] + 7} gives {r1[1]} but a fresh SHA256 generator with that seed {r4[1]}", "cls": "experiment:int-vs-sha256"})
+                if _v: return _v
         return None
     if f == "testfn":
         g = c["g"]; idx = c["idx"]; col = [float(r[idx]) for r in c["resp"]]
@@ -296,7 +308,8 @@ def oracle(c, o):
         if c["fn"] in ("mean_diff", "ttest") and len(labs) != 2:
             return None if (r[0] == "exc" and r[1] == "ValueError") else {"why": f"{c['fn']} with {len(labs)} groups did not raise ValueError: {r}", "cls": "testfunc:groups-guard"}
         if r[0] != "ok":
-            return {"why": f"TestFunc.{c['fn']} raised {r}", "cls": "testfunc:raises"}
+            _v = emit({"why": f"TestFunc.{c['fn']} raised {r}", "cls": "testfunc:raises"})
+            if _v: return _v
         a = [col[i] for i in range(len(g)) if g[i] == labs[0]]
         if c["fn"] == "mean_diff":
             b = [col[i] for i in range(len(g)) if g[i] == labs[1]]
@@ -308,43 +321,54 @@ def oracle(c, o):
             m = float(np.mean(col)); want = sum((np.mean([col[i] for i in range(len(g)) if g[i] == k]) - m) ** 2 * g.count(k) for k in labs)
         ok = (math.isnan(want) and math.isnan(r[1])) or r[1] == want or abs(r[1] - want) <= 1e-9 * (1 + abs(want))
         if not ok:
-            return {"why": f"TestFunc.{c['fn']}(index={idx}) = {r[1]} but its definition gives {want} (groups {g}, column {col})", "cls": f"testfunc:{c['fn']}"}
+            _v = emit({"why": f"TestFunc.{c['fn']}(index={idx}) = {r[1]} but its definition gives {want} (groups {g}, column {col})", "cls": f"testfunc:{c['fn']}"})
+            if _v: return _v
         v = o["via_array"]
         if v[0] != "ok" or not ((math.isnan(v[1]) and math.isnan(r[1])) or v[1] == r[1]):
-            return {"why": f"make_test_array(func, indices)[i](data) = {v} differs from func(data, indices[i]) = {r}", "cls": "testfunc:make_test_array"}
+            _v = emit({"why": f"make_test_array(func, indices)[i](data) = {v} differs from func(data, indices[i]) = {r}", "cls": "testfunc:make_test_array"})
+            if _v: return _v
         for ent in o.get("index_lists", []):
             same = lambda a, b: a == b or (a[0] == b[0] == "ok" and math.isnan(a[1]) and math.isnan(b[1])) or (a[0] == b[0] == "exc" and a[1] == b[1])
             if len(ent) == 2 or len(ent[1]) != len(ent[0]) or any(not same(a[:2], b[:2]) for a, b in zip(ent[1], ent[2])):
-                return {"why": f"make_test_array({c['fn']}, {ent[0]}) gives {ent[1:2]}, func(data, indices[i]) gives {ent[2:] if len(ent) > 2 else None}", "cls": "testfunc:make_test_array"}
+                _v = emit({"why": f"make_test_array({c['fn']}, {ent[0]}) gives {ent[1:2]}, func(data, indices[i]) gives {ent[2:] if len(ent) > 2 else None}", "cls": "testfunc:make_test_array"})
+                if _v: return _v
         return None
     g0 = c["g"]
     for k, pr in enumerate(o.get("probes", [])):
         if pr:
             name, got, want, g = pr[0]
-            return {"why": f"after {k} operation(s) TestFunc.{name} on the current assignment {g} returns {got}, its definition gives {want}", "cls": f"testfunc:{name}:stale"}
+            _v = emit({"why": f"after {k} operation(s) TestFunc.{name} on the current assignment {g} returns {got}, its definition gives {want}", "cls": f"testfunc:{name}:stale"})
+            if _v: return _v
     for k, s in enumerate(o["steps"]):
         op = c["ops"][k]
         if s["out"][0] != "ok":
             if s["out"][1] == "ValueError" and len(set(g0)) != 2 and any(t[0] == "mean_diff" for t in op.get("tests", [])):
                 return None      # mean_diff is defined for exactly two groups: documented ValueError ends the history
-            return {"why": f"operation {k} {op} raised {s['out']}", "cls": "experiment:raises"}
+            _v = emit({"why": f"operation {k} {op} raised {s['out']}", "cls": "experiment:raises"})
+            if _v: return _v
         if not s["others_same"]:
-            return {"why": f"operation {k} {op} changed responses or covariates", "cls": "experiment:response-changed"}
+            _v = emit({"why": f"operation {k} {op} changed responses or covariates", "cls": "experiment:response-changed"})
+            if _v: return _v
         ga = s["group_after"]
         if sorted(ga) != sorted(g0):
-            return {"why": f"after operation {k} {op} the group vector {ga} is not a rearrangement of the original labels {g0}", "cls": "experiment:labels-not-conserved"}
+            _v = emit({"why": f"after operation {k} {op} the group vector {ga} is not a rearrangement of the original labels {g0}", "cls": "experiment:labels-not-conserved"})
+            if _v: return _v
         if c["strata"] is not None:
             for st in set(c["strata"]):
                 if sorted(ga[i] for i in range(len(ga)) if c["strata"][i] == st) != sorted(g0[i] for i in range(len(g0)) if c["strata"][i] == st):
-                    return {"why": f"after operation {k} {op} labels moved between strata: {ga} (strata {c['strata']}, original {g0})", "cls": "experiment:strata-violated"}
+                    _v = emit({"why": f"after operation {k} {op} labels moved between strata: {ga} (strata {c['strata']}, original {g0})", "cls": "experiment:strata-violated"})
+                    if _v: return _v
         if not op["in_place"] and ga != s["group_before"]:
-            return {"why": f"operation {k} {op} with in_place=False changed the caller's group assignment {s['group_before']} -> {ga}", "cls": "experiment:in-place-false-mutates"}
+            _v = emit({"why": f"operation {k} {op} with in_place=False changed the caller's group assignment {s['group_before']} -> {ga}", "cls": "experiment:in-place-false-mutates"})
+            if _v: return _v
         if op["op"] == "randomize":
             same_obj = s["out"][2]
             if op["in_place"] != same_obj:
-                return {"why": f"randomize(in_place={op['in_place']}) returned {'the same' if same_obj else 'a different'} object", "cls": "experiment:copy-semantics"}
+                _v = emit({"why": f"randomize(in_place={op['in_place']}) returned {'the same' if same_obj else 'a different'} object", "cls": "experiment:copy-semantics"})
+                if _v: return _v
             if sorted(s["out"][1]) != sorted(g0):
-                return {"why": f"randomize returned group {s['out'][1]}, not a rearrangement of {g0}", "cls": "experiment:labels-not-conserved"}
+                _v = emit({"why": f"randomize returned group {s['out'][1]}, not a rearrangement of {g0}", "cls": "experiment:labels-not-conserved"})
+                if _v: return _v
     return None
 
 
